@@ -1,1 +1,42 @@
-From UV Require Import Ural.Lru.
+(* C12 — URL <-> LRU conversion and serialization.  Statements only.  PARTIAL: the
+   round-trip clauses are decided by the harness (re-parsing the implementation's output) and
+   by model-vs-implementation correspondence; proved here: the serialization shape and the
+   structural pins of the two splitter regexes read from the source. *)
+From Coq Require Import String.
+From Coq Require Import List NArith.
+Import ListNotations.
+From UV Require Import Py.Val Py.Str Py.Regex Py.UrlLib Gen.Patterns Ural.Utils Ural.SuffixTrie Ural.Lru Proofs.LruFacts.
+Local Open Scope string_scope.
+Local Open Scope list_scope.
+
+Theorem C12_ends_with_bar : forall stems, exists body, serialize_lru stems = body ++ [124%N].
+Proof. exact serialize_ends_with_bar. Qed.
+
+Theorem C12_pin_serialized_splitter :
+  SERIALIZED_LRU_SPLITTER_RE =
+  Seq (Lit 124) (Ahead false (Seq (Cls false [ILit 115; ILit 104; ILit 116; ILit 112; ILit 113; ILit 102; ILit 117; ILit 119]) (Lit 58)))
+  /\ icase SERIALIZED_LRU_SPLITTER_RE_f = false /\ SERIALIZED_LRU_SPLITTER_RE_g = 0.
+Proof. exact pin_SERIALIZED_LRU_SPLITTER_RE. Qed.
+
+Theorem C12_pin_port_splitter :
+  PORT_SPLITTER = Seq (Lit 58) (Ahead true (Seq (Rep (Cls true [ILit 91; ILit 93]) 0 None) (Lit 93)))
+  /\ icase PORT_SPLITTER_f = false /\ PORT_SPLITTER_g = 0.
+Proof. exact pin_PORT_SPLITTER. Qed.
+
+(* the round trip on concrete urls of every shape of the grammar (model, by computation) *)
+Example C12_round_trips :
+  let rt u := match lru_stems env0 sempty (lit u) false with
+              | Ok st => (lru_to_url (serialize_lru st), unserialize_lru (serialize_lru st), st)
+              | Exc x => (Exc x, [], [])
+              end in
+  fst (fst (rt "http://u:@x.com:8080/a//b/?q=1#f")) = Ok (lit "http://u:@x.com:8080/a//b/?q=1#f") /\
+  fst (fst (rt "https://a@b@x.com/")) = Ok (lit "https://a@b@x.com/") /\
+  fst (fst (rt "http://127.0.0.1:80/a:b?x:y@z#/a?b")) = Ok (lit "http://127.0.0.1:80/a:b?x:y@z#/a?b") /\
+  snd (fst (rt "http://u:p@www.x.co.uk/a/")) = snd (rt "http://u:p@www.x.co.uk/a/") /\
+  snd (rt "http://u:p@www.x.co.uk:81/a/?q#f") =
+    map lit ["s:http"; "t:81"; "h:uk"; "h:co"; "h:x"; "h:www"; "p:a"; "p:"; "q:q"; "f:f"; "u:u"; "w:p"].
+Proof. vm_compute. repeat split. Qed.
+
+Print Assumptions C12_ends_with_bar.
+Print Assumptions C12_pin_serialized_splitter.
+Print Assumptions C12_pin_port_splitter.
